@@ -4,10 +4,12 @@ package composite
 
 import (
 	"fmt"
+	"runtime"
 	"sort"
 	"strings"
 	"sync/atomic"
 	"testing"
+	"time"
 
 	metav1 "k8s.io/apimachinery/pkg/apis/meta/v1"
 	"k8s.io/apimachinery/pkg/apis/meta/v1/unstructured"
@@ -74,6 +76,9 @@ type world struct {
 	strategyJudged int
 	// caseID is the case id used in reports (defaults to cfg.ID)
 	caseID string
+	// prop: the property a lost worker is reported under (default C01); hung: a sync never returned
+	prop string
+	hung bool
 }
 
 func (w *world) reportID() string {
@@ -217,7 +222,7 @@ func (w *world) restart() error {
 }
 
 func (w *world) quiesce() bool {
-	if w.env == nil {
+	if w.env == nil || w.hung {
 		return false
 	}
 	if err := w.env.Quiesce(); err != nil {
@@ -349,8 +354,24 @@ func (w *world) observe(key string, run func() error) *syncResult {
 		w.sim.SetTag(res.Tag)
 		lookup(key) // the cached parent the sync starts from
 	}
-	stack, panicked := sim.Guard(func() { res.Err = run() })
+	stack, panicked, hung := w.runGuarded(func() { res.Err = run() })
 	w.sim.SetTag("")
+	if hung != "" {
+		// the sync waits for goroutines that no longer exist: it will never return
+		prop := w.prop
+		if prop == "" {
+			prop = "C01"
+		}
+		res.Err = fmt.Errorf("sync never returned")
+		w.watchdog = fmt.Errorf("a sync is blocked for good; the scenario cannot continue")
+		w.hung = true
+		sim.R().Violation(prop, w.reportID(), "sync-blocked-forever:WaitGroup.Wait", "the sync is parked in sync.WaitGroup.Wait while no request, no hook call and no goroutine that could call Done exists any more (two goroutine dumps 2 s apart); the worker is lost for good:\n"+hung,
+			map[string]interface{}{"key": key})
+		res.Requests = w.sim.Since(mark)
+		res.Hooks = w.hooks.Since(hmark)
+		res.QueueOps = w.q.Since(qmark)
+		return res
+	}
 	if key == "" {
 		key = w.q.Current()
 		res.Key = key
@@ -388,6 +409,62 @@ func (w *world) observe(key string, run func() error) *syncResult {
 		}
 	}
 	return res
+}
+
+// runGuarded runs one sync like sim.Guard does, on a goroutine of its own, and watches for one
+// structural dead end: the goroutine of the sync parked in sync.WaitGroup.Wait while nothing is in
+// flight (no API request, no hook call) and no goroutine started by syncRevisions exists that could
+// ever call Done. The clock only decides when to look (after 5 s, twice 2 s apart); the verdict is
+// read from the goroutine dumps. Anything else that takes long is left to the outer watchdogs.
+func (w *world) runGuarded(fn func()) (stack string, panicked bool, hung string) {
+	done := make(chan struct{})
+	go func() {
+		defer close(done)
+		stack, panicked = sim.Guard(fn)
+	}()
+	timer := time.NewTimer(5 * time.Second)
+	defer timer.Stop()
+	select {
+	case <-done:
+		return stack, panicked, ""
+	case <-timer.C:
+	}
+	evidence := func() string {
+		if w.sim.InFlight() != 0 || w.hooks.InFlight() != 0 {
+			return ""
+		}
+		buf := make([]byte, 8<<20)
+		buf = buf[:runtime.Stack(buf, true)]
+		var waiter string
+		for _, g := range strings.Split(string(buf), "\n\n") {
+			if strings.Contains(g, "syncRevisions.func") || strings.Contains(g, "syncRevisions.gowrap") {
+				return "" // a per-revision goroutine is still alive
+			}
+			if strings.Contains(g, "sync.(*WaitGroup).Wait") && strings.Contains(g, "(*parentController).syncRevisions") && strings.Contains(g, "runGuarded") {
+				waiter = g
+			}
+		}
+		return waiter
+	}
+	for i := 0; i < 600; i++ { // (outer bound: 20 minutes, then the test's own deadline takes over)
+		select {
+		case <-done:
+			return stack, panicked, ""
+		case <-time.After(2 * time.Second):
+		}
+		if first := evidence(); first != "" {
+			select {
+			case <-done:
+				return stack, panicked, ""
+			case <-time.After(2 * time.Second):
+			}
+			if second := evidence(); second != "" {
+				return "", false, second
+			}
+		}
+	}
+	<-done
+	return stack, panicked, ""
 }
 
 func describeHooks(calls []*sim.HookCall) []string {
